@@ -24,16 +24,19 @@ LIB = os.path.dirname(os.path.abspath(__file__))
 ROOT = os.path.dirname(LIB)
 LOOM_DIR = os.path.join(ROOT, "harness_loom")
 
-# scenario = (name, preemption bound or None).  name: wg-n<sessions>-p<polls while sessions run>-e<sessions over before the next add>
+# scenario = (name, preemption bound or None).  name: wg-n<sessions>-p<polls while sessions run>-e<sessions over before the next add>[-u<session threads that unwind: guard dropped without done()>]
 SCENARIOS = {
     "quick": [("wg-n1-p2-e0", None), ("wg-n1-p3-e0", None), ("wg-n2-p1-e0", None), ("wg-n2-p2-e0", None), ("wg-n2-p3-e0", None),
               ("wg-n2-p2-e1", None), ("wg-n3-p2-e1", None), ("wg-n3-p3-e1", None), ("wg-n3-p2-e2", None), ("wg-n3-p1-e0", None),
-              ("wg-n3-p2-e0", 3), ("wg-n4-p1-e1", 3), ("wg-n4-p2-e2", None), ("wg-n4-p1-e0", 2)],
+              ("wg-n3-p2-e0", 3), ("wg-n4-p1-e1", 3), ("wg-n4-p2-e2", None), ("wg-n4-p1-e0", 2),
+              ("wg-n1-p2-e0-u1", None), ("wg-n2-p2-e0-u1", None), ("wg-n2-p2-e0-u2", None), ("wg-n3-p2-e1-u1", None)],
     "thorough": [("wg-n1-p2-e0", None), ("wg-n1-p3-e0", None), ("wg-n1-p4-e0", None), ("wg-n2-p1-e0", None), ("wg-n2-p2-e0", None),
                  ("wg-n2-p3-e0", None), ("wg-n2-p4-e0", None), ("wg-n2-p2-e1", None), ("wg-n3-p2-e1", None), ("wg-n3-p3-e1", None),
                  ("wg-n3-p4-e1", None), ("wg-n3-p2-e2", None), ("wg-n3-p1-e0", None), ("wg-n3-p2-e0", None), ("wg-n3-p3-e0", None),
                  ("wg-n4-p1-e1", None), ("wg-n4-p2-e1", None), ("wg-n4-p2-e2", None), ("wg-n4-p3-e2", None), ("wg-n4-p1-e0", 3),
-                 ("wg-n4-p2-e0", 2), ("wg-n5-p1-e2", None), ("wg-n5-p1-e1", 2)],
+                 ("wg-n4-p2-e0", 2), ("wg-n5-p1-e2", None), ("wg-n5-p1-e1", 2),
+                 ("wg-n1-p2-e0-u1", None), ("wg-n2-p2-e0-u1", None), ("wg-n2-p2-e0-u2", None), ("wg-n3-p2-e1-u1", None), ("wg-n3-p2-e0-u1", None),
+                 ("wg-n3-p2-e0-u3", None)],
 }
 SCENARIO_WALL_S = {"quick": 120, "thorough": 1500}
 
